@@ -38,7 +38,13 @@ def _jaqal_find_spec_relative(mod_name, search_path):
     try_eggs = []
     egg_regexp = re.compile(f"{mod_name}-([^-]*)-(.*)\\.egg")
 
-    for candidate in os.listdir(search_path):
+    try:
+        candidates = os.listdir(search_path)
+    except OSError:
+        # The search path is missing or is not a directory: nothing can be found there
+        raise ImportError(f"Unable to find module {mod_name}")
+
+    for candidate in candidates:
         egg_version = egg_regexp.match(candidate)
         if egg_version:
             # TODO: Also check groups()[1] for Python version compatibility
